@@ -9,11 +9,20 @@
     claim holds for every later call too);
   * `same_options_unchanged` — a column compared with a column carrying the same options is not reported as modified.
 
-  Missing: that `Diff` of two models with equal live content leaves every element without action (needs the map
-  invariant `Inv` and reader fidelity, C05).  That part is covered by correspondence + the executable predicate `Spec.c03`
-  on the implementation's output for every generated pair, including the equal-schema pairs loaded by different routes.
+  * `equal_content_empty` — **`Diff` of two models with equal live content, on the implementation model**: for two
+    consistent (`Inv`), freshly loaded (every action `add`) models with the same table names whose tables of one name are
+    `Table.Same` (every column / index of one side has a namesake on the other that `Table.Diff` compares equal, the
+    foreign-key names agree; column order and index-type spelling are free), `Migration.Diff` returns, leaves no action
+    on any column or index, and `MigrationUp` and `MigrationDown` both return and print nothing (Proofs/DiffSame.lean);
+  * `self_diff_empty` — in particular a model diffed against a model loaded the same way gives an empty migration.
+
+  Missing: that two *scripts* with equal reference schemas load into `Same` models — reader fidelity for option values
+  under the two spellings of a primary key (recorded finding `pk-inline-vs-table-level`), indexes and foreign keys.
+  That part is covered by correspondence + the executable predicate `Spec.c03` on the implementation's output for
+  every generated pair, including the equal-schema pairs loaded by different routes.
 -/
 import SqlizeModel.Proofs.Quiet
+import SqlizeModel.Proofs.DiffSame
 import SqlizeModel.Impl.Api
 import SqlizeModel.Spec.Scope
 
@@ -60,6 +69,68 @@ theorem unchanged_prints_nothing (g : Globals) (m m' : Migration) (out : List (L
       exact migrate_quiet g false m.tables ts o h hm
 
 theorem same_options_unchanged (o : List Opt) : hasChangedOptions o o = false := hasChangedOptions_refl o
+
+/-- equal live content gives an empty migration in both directions, and neither `Diff` nor the printers panic -/
+theorem equal_content_empty (g : Globals) (d : Dialect) (m o : Migration) (h : m.Inv) (ho : o.Inv) (hf : m.Fresh)
+    (hof : o.Fresh) (hs : Migration.Same d m o) :
+    ∃ dm, m.diff d o = .ok dm ∧ dm.migrationUp g = .ok (dm, []) ∧ dm.migrationDown g = .ok (dm, []) :=
+  Migration.same_prints_nothing g d m o h ho hf hof hs
+
+/-- a freshly loaded model diffed against itself -/
+theorem self_diff_empty (g : Globals) (d : Dialect) (m : Migration) (h : m.Inv) (hf : m.Fresh) :
+    ∃ dm, m.diff d m = .ok dm ∧ dm.migrationUp g = .ok (dm, []) ∧ dm.migrationDown g = .ok (dm, []) :=
+  Migration.same_prints_nothing g d m m h h hf hf (Migration.same_refl d m)
+
+-- non-vacuity of `equal_content_empty`: two tables built by the primitives in different column orders, one spelling the
+-- index type out, the other not; both with a foreign key — they are `Same`, and the diff is computed and silent
+def mkCol (n ty : String) : Column := { name := n, action := .add, cur := { typ := some ty, opts := [{ kind := .notNull }] } }
+def exA : M Migration := do
+  let t ← (Table.new "t" .add).addColumn (mkCol "a" "int(11)"); let t ← t.addColumn (mkCol "b" "text")
+  let t ← t.addIndex { name := "ix", action := .add, cols := ["a"], indexType := "BTREE" }
+  let t ← t.addForeignKey { name := "fk", action := .add, table := "t", column := "b", refTable := "u", refColumn := "id" }
+  (({} : Migration).addTable t)
+def exB : M Migration := do
+  let t ← (Table.new "t" .add).addColumn (mkCol "b" "text"); let t ← t.addColumn (mkCol "a" "int(11)")
+  let t ← t.addForeignKey { name := "fk", action := .add, table := "t", column := "b", refTable := "u", refColumn := "id" }
+  let t ← t.addIndex { name := "ix", action := .add, cols := ["a"], indexType := "" }
+  (({} : Migration).addTable t)
+example : ∃ a b dm, exA = .ok a ∧ exB = .ok b ∧ a.diff .mysql b = .ok dm ∧
+    (dm.tables.map (fun t => (t.cols.map (·.name), t.cols.map (·.action), t.idxs.map (·.action), t.fks.map (·.action)))) =
+      [(["a", "b"], [.none, .none], [.none], [.modify])] ∧ dm.migrationUp {} = .ok (dm, []) := ⟨_, _, _, rfl, rfl, rfl, by decide, by rfl⟩
+
+-- … and they meet every hypothesis of `equal_content_empty`
+example : ∃ a b, exA = .ok a ∧ exB = .ok b ∧ a.Inv ∧ b.Inv ∧ a.Fresh ∧ b.Fresh ∧ Migration.Same .mysql a b := by
+  refine ⟨_, _, rfl, rfl, ?_, ?_, ?_, ?_, ?_⟩
+  · have h0 := Table.inv_new "t" .add
+    obtain ⟨h1, _⟩ := Table.addColumn_inv _ _ (mkCol "a" "int(11)") true h0 rfl
+    obtain ⟨h2, _⟩ := Table.addColumn_inv _ _ (mkCol "b" "text") true h1 rfl
+    obtain ⟨h3, _⟩ := Table.addIndex_inv _ _ { name := "ix", action := .add, cols := ["a"], indexType := "BTREE" } h2 rfl
+    obtain ⟨h4, _⟩ := Table.addForeignKey_inv _ _ { name := "fk", action := .add, table := "t", column := "b", refTable := "u", refColumn := "id" } h3 rfl
+    exact Migration.addTable_inv {} _ _ Migration.inv_empty h4 rfl
+  · have h0 := Table.inv_new "t" .add
+    obtain ⟨h1, _⟩ := Table.addColumn_inv _ _ (mkCol "b" "text") true h0 rfl
+    obtain ⟨h2, _⟩ := Table.addColumn_inv _ _ (mkCol "a" "int(11)") true h1 rfl
+    obtain ⟨h3, _⟩ := Table.addForeignKey_inv _ _ { name := "fk", action := .add, table := "t", column := "b", refTable := "u", refColumn := "id" } h2 rfl
+    obtain ⟨h4, _⟩ := Table.addIndex_inv _ _ { name := "ix", action := .add, cols := ["a"], indexType := "" } h3 rfl
+    exact Migration.addTable_inv {} _ _ Migration.inv_empty h4 rfl
+  · constructor
+    intro t ht
+    have : t ∈ [_] := ht
+    rw [List.mem_singleton] at this
+    subst this
+    exact ⟨Table.fresh_of_lists _ (by decide) (by decide) (by decide), rfl⟩
+  · constructor
+    intro t ht
+    have : t ∈ [_] := ht
+    rw [List.mem_singleton] at this
+    subst this
+    exact ⟨Table.fresh_of_lists _ (by decide) (by decide) (by decide), rfl⟩
+  · refine ⟨?_, by decide⟩
+    intro t ht
+    have : t ∈ [_] := ht
+    rw [List.mem_singleton] at this
+    subst this
+    exact ⟨_, List.mem_singleton.mpr rfl, rfl, Table.same_of_sameB _ _ _ (by decide)⟩
 
 -- non-vacuity: a quiet table exists and is printed as nothing
 example : (Table.new "t" .none).Quiet := by
